@@ -1,0 +1,40 @@
+//go:build verif
+
+package v1
+
+// Contracts for the deductive verifier in /verif (govc). This file contains comments only; it is compiled
+// only with the build tag "verif" and adds no code. Syntax: /verif/DESIGN.md, Appendix A.
+
+// ---- name tables (C05): every documented key and signature algorithm name maps to the algorithm of that name
+//@ func tables
+//@   props C05
+//@   uses algs.smt2
+//@   replay TestVerifReplayTables
+//@   bounded TestVerifBoundedTables
+//@   ensures @C05 forall n string :: has(keyAlgorithms, n) <==> specKeyAlg(n) >= 0
+//@   ensures @C05 forall n string :: has(keyAlgorithms, n) ==> keyAlgorithms[n] == specKeyAlg(n)
+//@   ensures @C05 forall n string :: has(sigAlgorithms, n) <==> specSigAlg(n) >= 0
+//@   ensures @C05 forall n string :: has(sigAlgorithms, n) ==> sigAlgorithms[n] == specSigAlg(n)
+
+// ---- validity (C04)
+//@ func (CertValidity).toTimeStruct returns (out, err)
+//@   props C04 C20
+//@   uses time.smt2
+//@   bounded TestVerifBoundedValidity
+//@   ensures @C04 (cv.Until != "" && cv.Duration != "") ==> err != nil
+//@   ensures @C04 (cv.From != "" && !isDate(cv.From)) ==> err != nil
+//@   ensures @C04 (cv.Until != "" && !isDate(cv.Until)) ==> err != nil
+//@   ensures @C04 err == nil ==> out.From == (if cv.From != "" then civil(cv.From, #G_time_Local) else nowAt(1))
+//@   ensures @C04 err == nil ==> out.IsStatic == (cv.From != "") && out.IsSet == (cv.From != "" || cv.Until != "" || cv.Duration != "")
+//@   ensures @C04 err == nil && cv.Until != "" ==> out.Until == civil(cv.Until, #G_time_Local)
+//@   ensures @C04 err == nil && cv.Until == "" && cv.Duration == "" ==> out.Until == addDate(out.From, 5, 0, 0)
+//@   ensures @C04 err == nil && cv.Until == "" && cv.Duration != "" ==> isDuration(cv.Duration) && out.Until == addDate(out.From, ival(durY(cv.Duration)), ival(durM(cv.Duration)), ival(durD(cv.Duration)))
+//@   ensures @C04,C20 err == nil ==> 0 <= yearOf(out.Until) && yearOf(out.Until) <= 9999
+
+//@ func durationPart returns (n, err)
+//@   props C04 C20
+//@   uses time.smt2
+//@   ensures @C04 s == "" ==> err == nil && n == 0
+//@   ensures @C04 s != "" && !isInt(s) ==> err != nil
+//@   ensures @C04 err == nil && s != "" ==> isInt(s) && n == intval(s)
+//@   ensures @C04,C20 err == nil ==> n <= 3660000
